@@ -178,7 +178,14 @@ class SF(float):
     __index__ = __trunc__ = __floor__ = __ceil__ = __int__
 
     def __round__(s, n=None):
-        raise Unsupported('round() of a symbolic double')
+        """round-half-even to an integer as CPython does; forks over the engine's candidate integers"""
+        if n is not None:
+            raise Unsupported('round(x, n) of a symbolic double')
+        r = z3.fpRoundToIntegral(RNE, s.t)
+        for k in getattr(_E, 'round_candidates', ()):
+            if _E.branch(z3.fpEQ(r, _c(k))):
+                return k
+        raise Pruned('round() outside the candidate integers')
 
     def __repr__(s):
         return '<fp>'
